@@ -16,7 +16,11 @@ use std::sync::{Arc, Mutex};
 #[derive(Clone, Copy, PartialEq, Eq, Debug)]
 pub enum Fault {
     None,
+    /// the handler returns an error borrowed from a value accessor (ShouldBeBool)
     Err,
+    /// the handler returns the error of a nested execute() of an unregistered function
+    /// (InnerFunctionNotRegistered) — the kind of error the engine itself produces
+    ErrNested,
     Panic,
 }
 
@@ -43,7 +47,7 @@ pub fn take_log() -> Vec<String> {
 }
 
 /// called first thing by every handler; Ok(()) to proceed, Err(()) to fail with an error
-fn hit(name: &str, args: &[Value]) -> Result<(), ()> {
+fn hit(name: &str, args: &[Value]) -> Result<(), bool> {
     let fault = {
         let mut c = CTL.lock().unwrap_or_else(|e| e.into_inner());
         let me = c.count;
@@ -57,7 +61,8 @@ fn hit(name: &str, args: &[Value]) -> Result<(), ()> {
     }; // CTL released before any unwinding
     match fault {
         Fault::None => Ok(()),
-        Fault::Err => Err(()),
+        Fault::Err => Err(false),
+        Fault::ErrNested => Err(true),
         Fault::Panic => panic!("injected fault in handler {}", name),
     }
 }
@@ -75,15 +80,19 @@ fn answer(name: &str, args: &[Value]) -> Value {
     }
 }
 
-fn engine_err() -> expression_engine::Result<Value> {
-    // the crate's Error type is private: borrow one from an accessor
-    Value::None.bool().map(Value::from)
+fn engine_err(nested: bool) -> expression_engine::Result<Value> {
+    // the crate's Error type is private: borrow one from an accessor, or from the engine
+    if nested {
+        expression_engine::execute("function_nobody_registered()", Context::new())
+    } else {
+        Value::None.bool().map(Value::from)
+    }
 }
 
 fn engine_handler(name: String) -> Arc<dyn Fn(Vec<Value>) -> expression_engine::Result<Value> + Send + Sync> {
     Arc::new(move |args| match hit(&name, &args) {
         Ok(()) => Ok(answer(&name, &args)),
-        Err(()) => engine_err(),
+        Err(nested) => engine_err(nested),
     })
 }
 
@@ -171,6 +180,8 @@ pub fn kinds() -> Vec<Kind> {
         Kind::Ternary,
         Kind::Call(1),
         Kind::Call(2),
+        // three arguments = a call of a function that exists nowhere
+        Kind::Call(3),
         Kind::List(2),
         Kind::Map(1),
         Kind::Map(2),
@@ -178,7 +189,7 @@ pub fn kinds() -> Vec<Kind> {
 }
 
 /// leaf styles: how placeholder leaves are replaced
-pub const STYLES: &[&str] = &["calls", "bare", "mixed-true", "mixed-false"];
+pub const STYLES: &[&str] = &["calls", "bare", "mixed-true", "mixed-false", "repeat"];
 
 fn relabel_effects(t: &Ast, style: &str, next: &mut usize, cond: bool) -> Ast {
     let mut go = |x: &Ast, next: &mut usize, cond: bool| relabel_effects(x, style, next, cond);
@@ -203,6 +214,10 @@ fn relabel_effects(t: &Ast, style: &str, next: &mut usize, cond: bool) -> Ast {
                         call("f")
                     }
                 }
+                // every non-condition leaf is the same call, so sibling subtrees of equal
+                // shape are structurally equal (identical conditional arms, equal map keys)
+                ("repeat", true) => call("t"),
+                ("repeat", false) => Ast::Func("p1".into(), vec![]),
                 ("calls", _) => call("p"),
                 ("bare", _) => bare("q"),
                 _ => {
@@ -229,7 +244,11 @@ fn relabel_effects(t: &Ast, style: &str, next: &mut usize, cond: bool) -> Ast {
             Ast::Ternary(Box::new(a2), Box::new(b2), Box::new(c2))
         }
         Ast::Func(_, v) => {
-            let name = if v.len() == 1 { "cf" } else { "gf" };
+            let name = match v.len() {
+                1 => "cf",
+                2 => "gf",
+                _ => "nofn",
+            };
             Ast::Func(name.into(), v.iter().map(|x| go(x, next, false)).collect())
         }
         Ast::List(v) => Ast::List(v.iter().map(|x| go(x, next, false)).collect()),
@@ -371,6 +390,7 @@ pub fn compare_run(ast: &Ast, text: &str, world: &World, fault: Fault, at: usize
     let fk = match fault {
         Fault::None => "nofault",
         Fault::Err => "err",
+        Fault::ErrNested => "err-nested",
         Fault::Panic => "panic",
     };
     if e.log != m.log {
@@ -390,7 +410,7 @@ pub fn compare_run(ast: &Ast, text: &str, world: &World, fault: Fault, at: usize
                 out.fail(format!("result:value:{}:{}", fk, key), case, format!("{:?}: expected {} got {}", text, show_value(w), show_value(g)));
             }
         }
-        (Err(_), Res::Err(_), Fault::None) | (Err(_), Res::Err(_), Fault::Err) => {
+        (Err(_), Res::Err(_), Fault::None) | (Err(_), Res::Err(_), Fault::Err) | (Err(_), Res::Err(_), Fault::ErrNested) => {
             out.outcomes.insert("err".into());
         }
         (Err(_), Res::Panic(msg), Fault::Panic) if msg.contains("injected fault") => {
